@@ -133,33 +133,43 @@ def run(ctx):
                 okp = cw is not None and any(x.k == 'let' and x.b == 'remaining_candidates' for x in cw.b[1].walk()) and sm.b[2].const_value() == 1
     ctx.ob('PROVENANCE', 'selected-from-remaining', okp, sel.where(),
            'the pushed node is sample_nodes(calculate_weights(remaining_candidates ..), 1): %s' % okp)
-    sn = prog.body(SAMPLER + '::sample_nodes')
+    sn = prog.inl(SAMPLER + '::sample_nodes')          # argument checks may live in a private helper
     ssucc = L.success_returns(sn)
+    # the size parameter: the usize parameter of sample_nodes (by type, not by name)
+    kparams = [i for i in range(1, prog.body(SAMPLER + '::sample_nodes').argc + 1) if sn.local_ty(i) == 'usize']
+    kname = sn.local_name(kparams[0]) if kparams else 'k'
+
+    def is_k(e):
+        st = e.strip()
+        return st.show() == kname or (st.k == 'param' and st.a in kparams)
+
+    def cands(e):
+        return any(x.k == 'param' and x.a != (kparams[0] if kparams else -1) and x.a != 1 for x in e.walk()) or 'candidates' in e.show()
     take_ok = False
     for bb, st in ssucc:
         v = sn.expr(st['r']['ops'][0])
         tk = v.mentions_call(r'Iterator::take$|Iterator>::take$')
-        if tk is not None and tk.b[1].strip().show() == 'k' and 'candidates' in tk.show():
+        if tk is not None and is_k(tk.b[1]):
             take_ok = True
-        if v.mentions_call(r'Vec::<.*>::new$') is not None:
-            # the k == 0 early return
-            conds = F.dominating_conds(sn, bb)
-            take_ok = take_ok or False
+    # or: the keyed vector is cut with truncate(k) before it is returned
+    for c in sn.calls(r'Vec::<.*>::truncate$'):
+        if len(c.args) > 1 and is_k(sn.expr(c.args[1])) and all(sn.dominates(c.bb, bb) or sn.expr(st['r']['ops'][0]).mentions_call(r'Vec::<.*>::new$') is not None for bb, st in ssucc):
+            take_ok = True
     rej = L.rejecting_conds(sn)
-    k_gt = any(L.cmp_is(c, lambda e: e.strip().show() == 'k', 'Gt', L.has('len(', 'candidates')) for c in rej)
+    k_gt = any(L.cmp_is(c, is_k, 'Gt', lambda e: e.mentions_call(r'::len$') is not None) for c in rej)
     ctx.ob('PROVENANCE', 'sample_nodes:take-k-of-input', take_ok and k_gt, sn.where(),
-           'sample_nodes returns take(k) over keys built from `candidates`: %s; rejects k > candidates.len(): %s' % (take_ok, k_gt))
-    # the keying closure rejects non-positive weights and clones the candidate id
-    kc = [b for b in bodies if b.parent == sn.id]
+           'sample_nodes returns at most k of the keyed candidates (take / truncate): %s; rejects k > candidates.len(): %s' % (take_ok, k_gt))
+    # the keying step (closure or loop around the u^(1/w) key) rejects non-positive weights and clones the candidate id
     wpos = ident = False
-    for b in kc:
-        for c in L.rejecting_conds(b):
-            if L.cmp_is(c, lambda e: any(x.k == 'param' for x in e.walk()), 'Le', lambda e: e.const_value() == 0.0):
+    reg = L.element_region(prog, sn, r'f64.*::powf$')
+    if reg is not None:
+        rb_, emits, rejc, from_elem = reg
+        for c in rejc:
+            if L.cmp_is(c, lambda e: True, 'Le', lambda e: e.const_value() == 0.0):
                 wpos = True
-        for bb, st in L.success_returns(b):
-            v = b.expr(st['r']['ops'][0])
+        for bb, v in emits:
             cl = v.mentions_call(r'Clone>::clone$')
-            if cl is not None and any(x.k == 'param' for x in cl.walk()):
+            if cl is not None and from_elem(cl):
                 ident = True
     ctx.ob('PROVENANCE', 'sample_nodes:weights-positive-ids-cloned', wpos and ident, sn.where(),
            'keys are built only for weights > 0: %s; each key carries a clone of its candidate id: %s' % (wpos, ident))
@@ -262,7 +272,7 @@ def run(ctx):
         sites = [s for s in L.panic_sites(b) if s[0] in ('unwrap', 'panic', 'index', 'slice-op', 'bounds', 'divzero')]
         ctx.ob('NO-PANIC', 'panic-free:%s' % b.id, not sites, b.where(sites[0][2] if sites else None),
                'no unwrap/expect/panic/index site' if not sites else 'potential panic: %s at line %s' % (sites[0][3], sites[0][2]))
-    ctx.floor('NO-PANIC', 10)
+    ctx.floor('NO-PANIC', 5)
 
 
 def body_entries_after_next(sel, h, nodes):
